@@ -25,12 +25,12 @@ def run(m):
     try:
         open(path,'wb').write(orig[:m['start']]+m['repl'].encode()+orig[m['end']:])
         r={'id':m['id'],'file':m['file'],'line':m['line'],'func':m['func'],'kind':m['kind'],'text':m['text']}
-        b=subprocess.run(['go','build','./trzsz'],cwd=S,env=env,capture_output=True,text=True)
+        b=subprocess.run(['go','build','./trzsz'],cwd=S,env=env,capture_output=True,text=True,errors='replace')
         if b.returncode!=0: r['status']='nobuild'; return r
-        t=subprocess.run(['go','test','-vet=off','-count=1','-timeout','120s','./trzsz'],cwd=S,env=env,capture_output=True,text=True)
+        t=subprocess.run(['go','test','-vet=off','-count=1','-timeout','120s','./trzsz'],cwd=S,env=env,capture_output=True,text=True,errors='replace')
         if t.returncode!=0: r['status']='killed-by-tests'; return r
         e=dict(env,VERIF_REPO=S,VERIF_DIR=V)
-        c=subprocess.run(['/verif/bin/trzszlint','checkall'],env=e,capture_output=True,text=True)
+        c=subprocess.run(['/verif/bin/trzszlint','checkall'],env=e,capture_output=True,text=True,errors='replace')
         viol=[l for l in c.stdout.splitlines() if 'status=VIOLATION' in l]
         und=[l for l in c.stdout.splitlines() if 'status=UNDECIDED' in l]
         r['status']='violation' if viol else ('undecided' if und else 'survived')
